@@ -94,3 +94,31 @@ PROPS["C16"] = dict(
     outside="n beyond the bounds; ReadAll segment readers; real-hash collisions",
     assumptions=["hash injective on the finitely many inputs of a harness", "leaf data (2 bytes) and node input (64 bytes) hash to different digests"],
 )
+
+PROPS["C17"] = dict(
+    jobs=[Job("field/koalabear/vortex", ["C17/vortex_verify.go.tmpl"])],
+    level_text="Bounded proof of the Vortex verifier's acceptance condition: acceptance implies every check the scheme "
+               "requires (claims vs UAlpha(x), Reed-Solomon membership, column hash in the Merkle tree at its position, "
+               "column/UAlpha consistency), and malformed proof sizes are rejected without panic.",
+    level_note="All algebraic/cryptographic sub-routines (SIS hash, Poseidon2, RS test, polynomial evaluation) are uninterpreted "
+               "functions: the check decides which relations the verifier enforces, not their arithmetic. Abstract "
+               "counterexamples are replayed by a native twin that builds the corresponding concrete forgery.",
+    bounds="2 rows, codeword size 4, 2 selected columns with symbolic positions",
+    outside="the other seven schemes (Pedersen, shplonk, fflonk, permutation, plookup, FRI, mpcsetup); prover completeness",
+    assumptions=["sub-routines as uninterpreted functions"],
+)
+
+IOP = ["ecc/bn254/fr/iop", "ecc/bls12-377/fr/iop", "ecc/bls12-381/fr/iop", "ecc/bls24-315/fr/iop", "ecc/bls24-317/fr/iop",
+       "ecc/bw6-633/fr/iop", "ecc/bw6-761/fr/iop"]
+
+PROPS["C20"] = dict(
+    jobs=[Job(m, ["C20/iop_shift.go.tmpl"], params=dict(FrPath="github.com/consensys/gnark-crypto/" + m[:-4], FrSuffix=m[4:-4])) for m in IOP],
+    level_text="Bounded proof (7 curves) that Evaluate of a shifted canonical polynomial is p(w^shift x) and that GetCoeff "
+               "indexes entry (i+shift) mod n in both layouts, for shifts {0,1,2,4,5,6,9,-1,-7} / {0,1,3,4,5,7,-1,-6} and every "
+               "index, with symbolic coefficients and point.",
+    level_note="fr.Element by canonical value (felt), products uninterpreted modulo AC with zero/zero-divisor facts, the domain "
+               "generator an opaque element. Conversions between bases (FFT) are not covered yet.",
+    bounds="size 4; canonical/regular for Evaluate; Lagrange regular and bit-reversed for GetCoeff",
+    outside="form conversions, barycentric evaluation, derived builders, sizes > 4",
+    assumptions=["felt summaries of fr.Element", "fft.Generator(m) is a fixed element depending only on m"],
+)
